@@ -68,7 +68,9 @@ class After(Condition):
         return True  # noqa: B901
 
     def __subscribe__(self, waiter: Coroutine, interrupt: CoreInterrupt):
-        self._ensure_trigger()
+        # a date that has been reached already needs no (past) trigger
+        if not self:
+            self._ensure_trigger()
         super().__subscribe__(waiter, interrupt)
 
     def __repr__(self):
@@ -168,10 +170,16 @@ class Moment(Condition):
         return True  # noqa: B901
 
     def __subscribe__(self, waiter: Coroutine, interrupt: CoreInterrupt):
-        self._transition.__subscribe__(waiter, interrupt)
+        # a moment that has passed already never triggers
+        if __USIM_STATE__.loop.time <= self.date:
+            self._transition.__subscribe__(waiter, interrupt)
 
     def __unsubscribe__(self, waiter: Coroutine, interrupt: CoreInterrupt):
-        self._transition.__unsubscribe__(waiter, interrupt)
+        try:
+            self._transition.__unsubscribe__(waiter, interrupt)
+        except ValueError:
+            # never subscribed, since the moment had passed already
+            pass
 
     def __repr__(self):
         return f'{self.__class__.__name__}(date={self.date})'
